@@ -284,7 +284,7 @@ impl CasObjectInfoV1 {
 //@ contract
     ensures r is Ok ==> final(writer).wlen() == old(writer).wlen() + 4 * vs@.len(),
 //@ loop 1
-        invariant writer.wlen() == old(writer).wlen() + 4 * vx_i_e,
+        invariant /*@C07*/ writer.wlen() == old(writer).wlen() + 4 * vx_i_e,
 //@ end
 
 // (the `Default` impls are public trait impls; Verus does not let their contracts name fields of the crate-private structs
@@ -350,9 +350,9 @@ impl CasObjectInfoV1 {
         let ghost c_h = w.n;
 //@ loop 1
             invariant
-                self.num_chunks == self.chunk_hashes@.len(),
-                w.n == c_h + 12 + 32 * vx_i_hash,
-                c_h == first_section_len(),
+                /*@AUX*/ self.num_chunks == self.chunk_hashes@.len(),
+                /*@C07*/ w.n == c_h + 12 + 32 * vx_i_hash,
+                /*@C07*/ c_h == first_section_len(),
 //@ before `write_bytes(w, &self.ident_boundary_section)`
         let ghost c_b = w.n;
 //@ before `Ok(w.writer_bytes())`
@@ -400,14 +400,20 @@ impl CasObject {
         let ghost c = chunk_and_boundaries@; let ghost k = c.len(); let ghost hs = cas.info.chunk_hashes@; let ghost us = cas.info.unpacked_chunk_offsets@;
 //@ loop 1
             invariant
-                c == chunk_and_boundaries@, k == c.len(), bounds_ok(c, data@.len() as int), chunks_small(c),
-                written_sum(data@, c, compression_scheme, k as int) <= u32::MAX, info_len(k) <= u32::MAX,
-                cas.info.chunk_hashes@ == hs, cas.info.unpacked_chunk_offsets@ == us, cas.info.num_chunks == k,
-                cas.info.cashash == *hash, cas.info.boundaries_version == CAS_OBJECT_FORMAT_BOUNDARIES_VERSION,
-                cas.info.chunk_boundary_offsets@.len() == vx_i_boundary,
-                total_written_bytes == written_sum(data@, c, compression_scheme, vx_i_boundary as int),
-                raw_start_idx == bound_before(c, vx_i_boundary as int),
-                forall|i: int| 0 <= i < vx_i_boundary ==> cas.info.chunk_boundary_offsets@[i] == written_sum(data@, c, compression_scheme, i + 1),
+                c == chunk_and_boundaries@, k == c.len(),
+                /*@AUX*/ bounds_ok(c, data@.len() as int),
+                /*@AUX*/ chunks_small(c),
+                /*@AUX*/ written_sum(data@, c, compression_scheme, k as int) <= u32::MAX,
+                /*@AUX*/ info_len(k) <= u32::MAX,
+                /*@C07*/ cas.info.chunk_hashes@ == hs,
+                /*@C07*/ cas.info.unpacked_chunk_offsets@ == us,
+                /*@C07*/ cas.info.num_chunks == k,
+                /*@C07*/ cas.info.cashash == *hash,
+                /*@C07*/ cas.info.boundaries_version == CAS_OBJECT_FORMAT_BOUNDARIES_VERSION,
+                /*@C07*/ cas.info.chunk_boundary_offsets@.len() == vx_i_boundary,
+                /*@C07*/ total_written_bytes == written_sum(data@, c, compression_scheme, vx_i_boundary as int),
+                /*@C07*/ raw_start_idx == bound_before(c, vx_i_boundary as int),
+                /*@C07*/ forall|i: int| 0 <= i < vx_i_boundary ==> cas.info.chunk_boundary_offsets@[i] == written_sum(data@, c, compression_scheme, i + 1),
 //@ after `serialize_chunk(chunk_raw_bytes, writer, compression_scheme)?;`
             proof { lemma_written_sum_mono(data@, c, compression_scheme, vx_i_boundary + 1, k as int); }
 //@ before `cas.info.fill_in_boundary_offsets();`
